@@ -32,13 +32,5 @@ PY
 for c in $id $extra; do
   line=$(tools/try_seed.sh "$dst" $c | tail -1)
   echo "$line"
-  python3 - "$dst" "$c" "$line" <<'PY'
-import json,sys,os,re
-dst,c,line=sys.argv[1:4]
-m=json.load(open(os.path.join(dst,"meta.json")))
-rc=re.search(r"rc=(\d+)",line); viol=line.split("::",1)[1].strip() if "::" in line else ""
-m["checks_run"]=[r for r in m["checks_run"] if r.get("check")!=c]+[{"check":c,"cmd":"tools/try_seed.sh seeded/%s %s (VERIF_REPO=worktree with the patch, quick tier, seed 1)"%(m["id"],c),
-   "result":"caught" if rc and rc.group(1)=="1" and "VIOLATION" in viol else "MISSED","rc":int(rc.group(1)) if rc else None,"violation_lines":viol[:600]}]
-json.dump(m,open(os.path.join(dst,"meta.json"),"w"),indent=1)
-PY
+  python3 tools/record_try.py "$dst" "$c" "$line"
 done
